@@ -29,10 +29,14 @@ def run(tier, seed):
             stages, reduced = (2, False) if big else (3, False)
         acc.run('matrix/%dx%d/stages<=%d%s' % (h, w, stages, '/reduced-pairs' if reduced else ''),
                 'mc.lang.gen_matrix', 'matrix_programs', (h, w, stages, reduced), pop)
+    from ..lang import gen_matrix
+    acc.run('and-lists<=%d' % (2 if tier == 'quick' else 3), 'mc.lang.gen_matrix', 'and_list_programs',
+            (2 if tier == 'quick' else 3,), tuple(D(*d) for d in gen_matrix.AND_POP))
     acc.report(rep, 'every zone range (a, a..b) on strips of 1,2,8,16 zones; every inclusive row/column range with either end '
                     'omitted, in the one-line and the one-stage-block form; every sequence of stage rectangles up to the stated '
                     'length (6x5: pairs over a reduced rectangle set in quick, all pairs in thorough); with/without default; '
-                    'loop-index and routine stages; three unit modes; compared with the reference painting and conversion')
+                    'loop-index and routine stages; one `set` with every ordered list of 2 (thorough 3) operands over matrix/block/zone/'
+                    'light/group joined by `and`; three unit modes; compared with the reference painting and conversion')
     return rep
 
 
